@@ -2,6 +2,7 @@
 C16 - template application edits exactly what the template names.  DESIGN 2/C16.
 """
 import random as _random
+import itertools
 from collections import Counter
 
 from hypothesis import strategies as st
@@ -65,10 +66,30 @@ def shards(tier, seed):
     return out
 
 
+@st.composite
+def cage_hetero(draw):
+    """fused / spiro / bridged carbon ring assemblies with one or two ring atoms turned into N, O or S: substrates on which the
+    atom-deleting templates cut a ring or cage open (fragments reachable through several arms)"""
+    from .c06 import ring_assemblies
+    g = draw(ring_assemblies())
+    deg = {}
+    for i, j, _ in g['bonds']:
+        deg[i] = deg.get(i, 0) + 1
+        deg[j] = deg.get(j, 0) + 1
+    atoms = [list(a) for a in g['atoms']]
+    for _ in range(draw(st.integers(1, 2))):
+        i = draw(st.integers(0, len(atoms) - 1))
+        if deg.get(i, 0) <= 2:
+            atoms[i][0] = draw(st.sampled_from(['O', 'S', 'N']))
+        elif deg[i] == 3:
+            atoms[i][0] = 'N'
+    return {'k': 'graph', 'atoms': atoms, 'bonds': g['bonds'], 'stereo': []}
+
+
 def run_shard(shard, tier, seed):
     specs = molgen.mol_specs(max_atoms=10, corpus_w=3, curated_w=2, graph_w=6, literal_w=0, sym_w=2)
     if shard['kind'] == 'transformer':
-        strat = st.fixed_dictionaries({'mol': specs, 'template': st.integers(0, len(TEMPLATES) - 1), 'seed': st.integers(0, 2 ** 31),
+        strat = st.fixed_dictionaries({'mol': st.one_of(specs, specs, specs, cage_hetero()), 'template': st.integers(0, len(TEMPLATES) - 1), 'seed': st.integers(0, 2 ** 31),
                                        'graft': st.lists(st.integers(0, 2 ** 16), max_size=2)})
     else:
         strat = st.fixed_dictionaries({'mols': st.lists(specs, min_size=1, max_size=3), 'rtemplate': st.integers(0, len(REACTOR_TEMPLATES) - 1),
@@ -373,5 +394,37 @@ def check_reactor(case, rec):
             if a != b and not _gap([p for k in a - b for p in ka[k].products] + [p for k in b - a for p in kb[k].products]):
                 rec.fail('reactant-order', f'{label}: product sets differ for reversed reactant order: {sorted(a)[:2]} vs {sorted(b)[:2]}')
                 return
+    # exhaustive mode (one_shot=False): every reaction produced, at whatever stage, may differ from its reactant side only by the
+    # atoms the template deletes or adds; atoms (and whole molecules) the template never names must not disappear
+    # (single-pattern templates only: with several patterns a reactant may legitimately be consumed twice - polymerisation - while
+    # the reaction lists it once).  A copy of the first molecule is added so that structurally identical products occur.
+    LOST = {3: {'Br'}}
+    ADDED = {3: {'O'}}
+    if case['rtemplate'] in LOST and sum(len(x) for x in mols) <= 30:
+        ok, ex = rec.guard('template', Reactor, tuple(smarts(p) for p in pats), tuple(smarts(p) for p in prods_t),
+                           fix_aromatic_rings=False, one_shot=False, polymerise_limit=3)
+        if ok:
+            first = mols[0].copy()
+            if sum(a.atomic_symbol == 'Br' for _, a in first.atoms()) < 2:
+                try:  # two reactive sites: an intermediate of one copy can coincide with the other copy and still react
+                    graft(first, [7 * GRAFTS.index('Br'), 7 * GRAFTS.index('Br') + 63])
+                except Exception:
+                    pass
+            twice = [first] + list(mols[1:]) + [first.copy()]
+            ok, many = rec.guard('apply-exhaustive', lambda: list(itertools.islice(ex(*twice), 60)))
+            if ok:
+                rec.count('reactor-exhaustive-runs')
+                for r in many:
+                    rc = Counter(a.atomic_symbol for x in r.reactants for _, a in x.atoms() if a.atomic_number != 1)
+                    pc = Counter(a.atomic_symbol for x in r.products for _, a in x.atoms() if a.atomic_number != 1)
+                    lost, added = rc - pc, pc - rc
+                    if set(lost) - LOST[case['rtemplate']] or set(added) - ADDED[case['rtemplate']]:
+                        rec.fail('exhaustive-conservation', f'{label} (one_shot=False): reaction {str(r)!r} loses {dict(lost)} and gains '
+                                                            f'{dict(added)}; the template only deletes {sorted(LOST[case["rtemplate"]])} and adds '
+                                                            f'{sorted(ADDED[case["rtemplate"]])}')
+                        return
+                    if sorted(n for x in r.products for n in x) != sorted(set(n for x in r.products for n in x)):
+                        rec.fail('unique-numbers', f'{label} (one_shot=False): duplicate atom numbers on the product side of {str(r)!r}')
+                        return
     if rxns:
         rec.sample(f'reactor-{case["rtemplate"]}', str(rxns[0]), cap=3)
